@@ -22,10 +22,13 @@ class Injected(Exception):
     pass
 
 
-def make_flow(root, shape, tail, pulls, fault=None):
+def make_flow(root, shape, tail, pulls, fault=None, first_attempt=False):
     """fault: None | ('up'|'down', resource index, row index | 'end')"""
     st = shape_state(shape)
     links = [core.from_state(st, on_pull=lambda i, j: pulls.append((i, j)))]
+    if first_attempt:
+        # the attempt that fails describes its data differently from the corrected one that follows
+        links.append(core.dataflows.update_package(title='first attempt, to be corrected ' * 3))
 
     def injector(where):
         def step(package):
@@ -140,9 +143,10 @@ def open_handles(root):
     return out
 
 
-def retry_while_alive(d, shape, tail, ref, where, ri, j):
+def retry_while_alive(d, shape, tail, ref, where, ri, j, changed=False):
     """The failed run's exception (and with it the suspended pipeline) is kept alive - as an interactive session, a test
-    runner or plain reference cycles would - and a fresh Flow is run right away."""
+    runner or plain reference cycles would - and a fresh Flow is run right away.  changed: the failed attempt described
+    its data differently (the user corrected the pipeline before retrying)."""
     root = os.path.join(d, 'alive')
     shutil.rmtree(root, ignore_errors=True)
     os.makedirs(root)
@@ -151,11 +155,12 @@ def retry_while_alive(d, shape, tail, ref, where, ri, j):
     gc.disable()
     try:
         try:
-            make_flow(root, shape, tail, [], (where, ri, j)).results()
+            make_flow(root, shape, tail, [], (where, ri, j), first_attempt=changed).results()
         except Exception as e:
             keep.append(e)
         stale = open_handles(root)
-        label = 'fresh Flow run while the pipeline that failed in the %sstream step at resource %s row %s is still referenced' % (where, ri, j)
+        label = '%s run while' % ('corrected Flow (different package title)' if changed else 'fresh Flow')
+        label = label + ' the pipeline that failed in the %sstream step at resource %s row %s is still referenced' % (where, ri, j)
         pulls = []
         try:
             res, dp, _ = make_flow(root, shape, tail, pulls).results()
@@ -387,6 +392,13 @@ def check_scenario(sc):
                         note('retry-while-alive')
                         if v3:
                             V(v3[0], v3[1], {'kind': 'retry-while-alive', 'where': where, 'ri': ri, 'j': j})
+                        if fr[0] == 'exc' and j in (0, 'end') and not committed:
+                            # (a failed run that did commit - the failure came after the checkpoint was complete - is
+                            # legitimately picked up by the corrected pipeline, first-attempt description included)
+                            v3 = retry_while_alive(d, shape, tail, ref, where, ri, j, changed=True)
+                            note('retry-while-alive-changed')
+                            if v3:
+                                V(v3[0] + '/changed', v3[1], {'kind': 'retry-while-alive-changed', 'where': where, 'ri': ri, 'j': j})
                         if j == 0 and fr[0] == 'exc' and (sc.get('deep') or len(shape) <= 2):
                             v4, cnt = finalised_during_retry(d, shape, tail, ref, where, ri, j)
                             for _ in range(cnt):
